@@ -511,15 +511,39 @@ static int cmd_batch(const Engine *eng) {
         RunResult er = run_one(eng, explicit_plan);
         if (er.violated() && er.sig() == sig) { f.plan = explicit_plan; f.res.loghash = er.loghash; }
       }
-      // (1) same seed again: class, key and event-log hash must match
+      // (1) same plan again: class, key and event-log hash must match.  If every re-execution violates
+      //     the property but not identically, the *code under test* behaves address-dependently (the
+      //     usual signature of memory corruption): that is still a violation, reported without
+      //     minimisation.  If a re-execution does not violate at all, the simulator is at fault.
       RunResult again = run_one(eng, f.plan);
-      if (!again.violated() || again.sig() != sig || again.loghash != f.res.loghash) {
-        gate = strf("NONDETERMINISTIC: rerun gave '%s' hash %llu vs '%s' hash %llu", again.sig().c_str(),
-                    (unsigned long long)again.loghash, sig.c_str(), (unsigned long long)f.res.loghash);
-        nondet = true;
-        replay_path = verif_root() + strf("/replays/%s-%llu-unreproduced.plan", g_opt.prop.c_str(),
-                                          (unsigned long long)f.seed);
-        write_file(replay_path, join_plan(f.plan));
+      bool identical = again.violated() && again.sig() == sig && again.loghash == f.res.loghash;
+      if (!identical) {
+        int violated = again.violated() ? 1 : 0, attempts = 1;
+        std::string seen = again.sig();
+        while (attempts < 3 && violated == attempts) {
+          RunResult more = run_one(eng, f.plan);
+          attempts++;
+          if (more.violated()) { violated++; seen += ", " + more.sig(); }
+        }
+        replay_path = verif_root() + strf("/replays/%s-%llu-unstable.plan", g_opt.prop.c_str(), (unsigned long long)f.seed);
+        std::vector<std::string> out = f.plan;
+        out.push_back("# violation class=" + f.res.vclass + " key=" + f.res.vkey);
+        out.push_back("# message " + esc(f.res.vmsg));
+        out.push_back("# UNSTABLE: re-executions gave " + seen);
+        write_file(replay_path, join_plan(out));
+        if (violated == attempts && attempts == 3) {
+          gate = "unstable: all 3 re-executions violated (" + seen + ")";
+          printf("VIOLATION property=%s replay=%s\n", g_opt.prop.c_str(), replay_path.c_str());
+          printf("  class=%s key=%s seed=%llu runs_failing=%llu (not minimised: every re-execution violates the property, but not "
+                 "identically -- %s -- the code under test behaves address-dependently, as after memory corruption)\n",
+                 f.res.vclass.c_str(), f.res.vkey.c_str(), (unsigned long long)f.seed, (unsigned long long)failure_counts[sig], seen.c_str());
+          printf("  %s\n", f.res.vmsg.c_str());
+          exit_code = std::max(exit_code, 1);
+        } else {
+          gate = strf("NONDETERMINISTIC: %d of %d re-executions violated (%s) vs '%s' hash %llu", violated, attempts, seen.c_str(),
+                      sig.c_str(), (unsigned long long)f.res.loghash);
+          nondet = true;
+        }
       } else {
         // (2) minimise
         std::vector<std::string> minimal = shrink(eng, f.plan, sig, reruns);
@@ -534,24 +558,25 @@ static int cmd_batch(const Engine *eng) {
         write_file(replay_path, join_plan(out));
         // (3) fresh process
         RunResult fr;
-        if (!fresh_replay(replay_path, fr) || fr.sig() != sig || fr.loghash != mr.loghash) {
+        bool fresh_ok = fresh_replay(replay_path, fr);
+        if (!fresh_ok || !fr.violated()) {
           gate = strf("NONDETERMINISTIC: fresh replay gave '%s' hash %llu vs '%s' hash %llu", fr.sig().c_str(),
                       (unsigned long long)fr.loghash, sig.c_str(), (unsigned long long)mr.loghash);
           nondet = true;
         } else {
-          gate = "reproduced";
+          gate = (fr.sig() == sig && fr.loghash == mr.loghash) ? "reproduced" : "reproduced in a fresh process with different detail: " + fr.sig();
           f.res.vmsg = mr.vmsg;
           f.res.stderr_tail = mr.stderr_tail.empty() ? f.res.stderr_tail : mr.stderr_tail;
           printf("VIOLATION property=%s replay=%s\n", g_opt.prop.c_str(), replay_path.c_str());
-          printf("  class=%s key=%s seed=%llu runs_failing=%llu minimised %zu -> %zu lines (%d reruns)\n",
+          printf("  class=%s key=%s seed=%llu runs_failing=%llu minimised %zu -> %zu lines (%d reruns)%s\n",
                  f.res.vclass.c_str(), f.res.vkey.c_str(), (unsigned long long)f.seed,
-                 (unsigned long long)failure_counts[sig], f.plan.size(), min_lines, reruns);
+                 (unsigned long long)failure_counts[sig], f.plan.size(), min_lines, reruns, gate == "reproduced" ? "" : (" [" + gate + "]").c_str());
           printf("  %s\n", f.res.vmsg.c_str());
-          exit_code = 1;
+          exit_code = std::max(exit_code, 1);
         }
       }
     } else {
-      exit_code = 1;  // more distinct failures than we minimise: still a failure
+      exit_code = std::max(exit_code, 1);  // more distinct failures than we minimise: still a failure
       printf("VIOLATION property=%s replay=(not minimised; %s seed %llu)\n", g_opt.prop.c_str(), sig.c_str(),
              (unsigned long long)f.seed);
     }
